@@ -394,7 +394,10 @@ class XMIResource(Resource):
 
     def _build_none_node(self, feature_name):
         sub = Element(feature_name)
-        xsi_null = QName(self.xsi_type_url(), 'nil')
+        # 'nil' only exists in the XMLSchema-instance namespace, and this is
+        # where load() looks for it, whatever the namespace used for 'type'
+        self.prefixes[XSI] = XSI_URL
+        xsi_null = QName(XSI_URL, 'nil')
         sub.attrib[xsi_null] = 'true'
         return sub
 
